@@ -359,7 +359,8 @@ class GetActionProbs(Contract):
 # the name -> bool maps of a generated host: keys = the generator's name lists in list order (what HostVector.vectorize /
 # _initialize rely on), value = the drawn configuration (names 0..n-1 stand for the generated "srv_i" / "proc_i" / "os_i")
 
-from pyvc.values import SDict, SymDict, nameval
+from pyvc.values import SDict, SymDict, NameK, nameval
+from pyvc.contract import store_target, loop_assigned
 
 cfg_bit = z3.Function("gen_cfg_bit", I_, B_)
 
@@ -370,9 +371,18 @@ def gen_names(n, label):
 
 def conv_spec(d, k, val_of):
     x = z3.Int("cv_x")
+    ks = z3.simplify(k) if z3.is_expr(k) else z3.IntVal(k)
     if isinstance(d, PyDict):
-        zero = z3.is_int_value(z3.simplify(k)) and z3.simplify(k).as_long() == 0
-        return [("map-holds-the-first-names", z3.BoolVal(bool(zero and not d.d and not d.sym)))]
+        # concrete-length run (loop unrolled): an ordinary dict with literal keys
+        if not z3.is_int_value(ks) or d.sym:
+            return [("map-holds-the-first-names", z3.BoolVal(False))]
+        kk = ks.as_long()
+        want = [NameK(i) for i in range(kk)]
+        keys = list(d.d.keys())
+        cs = [z3.BoolVal(keys == want)]
+        if keys == want:
+            cs += [bval(d.d[NameK(i)]) == val_of(z3.IntVal(i)) for i in range(kk)]
+        return [("map-holds-the-first-names", z3.And(*cs))]
     if not isinstance(d, SDict):
         return [("map-holds-the-first-names", z3.BoolVal(False))]
     return [("keys-are-the-first-names", z3.ForAll([x], z3.Select(d.dom, x) == z3.And(0 <= x, x < k))),
@@ -382,43 +392,44 @@ def conv_spec(d, k, val_of):
 class _ConvLoop(LoopContract):
     ordinal = 0
     tags = ("C15", "C09")
-    var, targets = None, ()
+    names_field = None
 
     def snapshot(self, I, fr, seq):
-        return {}
+        return {"var": store_target(self.st)}
 
     def val_of(self, x):
         return cfg_bit(x)
 
     def havoc(self, I, fr, entry, seq):
         A = z3.ArraySort
+        var = entry["var"]
         names = fr.locals["self"].fields[self.names_field]
         # ghost iteration order: names are inserted in list order and are pairwise distinct
-        fr.locals[self.var] = SDict(1, "bool", I.ctx.fresh(self.var + "_dom", A(I_, B_)), I.ctx.fresh(self.var + "_val", A(I_, B_)),
-                                    keyseq=SymSeq(seq.n, names.elem, self.var + ".keys"), fresh=True, label=self.var)
-        for t in self.targets:
+        fr.locals[var] = SDict(1, "bool", I.ctx.fresh(var + "_dom", A(I_, B_)), I.ctx.fresh(var + "_val", A(I_, B_)),
+                               keyseq=SymSeq(seq.n, names.elem, var + ".keys"), fresh=True, label=var)
+        for t in loop_assigned(self.st):
             fr.locals.pop(t, None)
 
     def inv(self, I, fr, entry, seq, k):
-        return conv_spec(fr.locals[self.var], k, self.val_of)
+        return conv_spec(fr.locals[entry["var"]], k, self.val_of)
 
 
 @loop_contract
 class ConvSrvLoop(_ConvLoop):
     qualname = GQ + "_convert_to_service_map"
-    var, targets, names_field = "service_map", ("srv", "val"), "services"
+    names_field = "services"
 
 
 @loop_contract
 class ConvProcLoop(_ConvLoop):
     qualname = GQ + "_convert_to_process_map"
-    var, targets, names_field = "process_map", ("proc", "val"), "processes"
+    names_field = "processes"
 
 
 @loop_contract
 class ConvOsLoop(_ConvLoop):
     qualname = GQ + "_convert_to_os_map"
-    var, targets, names_field = "os_map", ("os_name",), "os"
+    names_field = "os"
 
     def val_of(self, x):
         return x == z3.Int("gen_host_os")
@@ -431,7 +442,8 @@ class _ConvertMap(Contract):
     names_field = None
 
     def setup(self, I, variant):
-        n = z3.Int("gen_n_names")
+        # bounded stand-in task (driver phase 3): a literal length, the real loop is unrolled
+        n = z3.IntVal(3) if I.ext_state.get("concrete") is not None else z3.Int("gen_n_names")
         I.ctx.assume(n >= 1)
         g = gen_obj(I, **{self.names_field: gen_names(n, self.names_field)})
         S = Scope()
@@ -450,6 +462,8 @@ class _ConvertMap(Contract):
     def ensures(self, I, S):
         d, n = S.result, S.extra["n"]
         out = [("C15.map-" + l, t) for l, t in conv_spec(d, n, self.val_of)]
+        if isinstance(d, PyDict):
+            return out              # literal keys: their order is part of map-holds-the-first-names
         if isinstance(d, SDict) and d.keyseq is not None:
             j = z3.Int("cv_kj")
             out.append(("C09.map-keys-in-list-order", z3.And(ival(d.keyseq.n) == n, z3.ForAll([j], z3.Implies(
